@@ -19,7 +19,7 @@ RULE = ("random registration tables (<=4 routers, <=6 names, <=3 queues, overrid
 ASSUMPTIONS = ["Redis and RabbitMQ are wire-level fakes (RabbitMQ: requeue returns a message to its original position)", "virtual time",
                "own messages behind foreign ones must be executed within 20 s + 1 s per message of virtual time"]
 EVAL_COUNTER = "jobs_judged"
-REQUIRED = ["jobs_judged", "own_executed", "foreign_left_alone", "overrides_across_queues", "two_worker_runs"]
+REQUIRED = ["jobs_judged", "own_executed", "foreign_left_alone", "overrides_across_queues", "two_worker_runs", "tables_with_bystander_workers"]
 CASE_TIMEOUT = 150
 
 NAMES = ["alpha", "beta", "gamma", "delta", "eps", "zeta"]
@@ -40,7 +40,10 @@ def gen_cases(tier, seed):
             if i % 3 == 0:  # force an override that moves a name to another queue
                 ri, name, q = regs[0]
                 regs.append([nr - 1, name, next(x for x in QUEUES if x != q)])
-            cases.append({"type": "table", "kind": kind, "regs": regs, "tl": rnd.choice([1, 3, 1000]), "seed": rnd.randrange(10**6),
+            # every third table: the worker under test serves only the first routers, while other Worker objects built
+            # from the same Router objects (all of them / the rest) exist in the process - they must not influence it
+            sub = rnd.randint(1, nr) if (i % 3 == 1 and nr > 1) else None
+            cases.append({"type": "table", "kind": kind, "regs": regs, "sub": sub, "tl": rnd.choice([1, 3, 1000]), "seed": rnd.randrange(10**6),
                           "latency": None if kind == "mem" else rnd.choice([None, 0.002])})
         for i in range({"quick": 4, "thorough": 30}[tier]):
             cases.append({"type": "two", "kind": kind, "n": rnd.choice([6, 14]), "tl": rnd.choice([1, 3, 1000]), "seed": rnd.randrange(10**6),
@@ -69,17 +72,25 @@ async def table_scenario(loop, case, out, stats, fps, samples):
             w.scripted_actor(routers[ri], name, queue=q, tag=tag)
             per_router[ri][name] = (q, tag)
         winning = {}
-        for ri in range(nr):
+        sub = case.get("sub")
+        under_test = routers if sub is None else routers[:sub]
+        for ri in range(len(under_test)):
             for name, (q, tag) in per_router[ri].items():
                 winning[name] = (q, tag)
-        worker = w.worker(routers, tasks_limit=tl, graceful_shutdown_time=5.0, handle_signals=[__import__("signal").SIGUSR1])
+        bystanders = []
+        if sub is not None:
+            bystanders.append(w.worker(routers, tasks_limit=tl, handle_signals=[]))  # built first, never run
+            stats["tables_with_bystander_workers"] += 1
+        worker = w.worker(under_test, tasks_limit=tl, graceful_shutdown_time=5.0, handle_signals=[__import__("signal").SIGUSR1])
+        if sub is not None and sub < nr:
+            bystanders.append(w.worker(routers[sub:], tasks_limit=tl, handle_signals=[]))
         # union of actors, last registration wins
         got_actors = {n: a.queue for n, a in worker.actors.items()}
         want_actors = {n: q for n, (q, _) in winning.items()}
         if got_actors != want_actors:
             out.append(V("union_mismatch", kind, "actors", f"Worker.actors {got_actors} != last-wins union {want_actors}"))
         served = {q for q, _ in winning.values()}
-        moved = any(len({q for (ri, n2, q) in regs if n2 == name}) > 1 for name in winning)
+        moved = any(len({q for (ri, n2, q) in regs if n2 == name and ri < len(under_test)}) > 1 for name in winning)
         if moved:
             stats["overrides_across_queues"] += 1
         # declare every queue we will enqueue into (foreign queues included)
